@@ -502,6 +502,19 @@ func registerIntrinsics(e *Engine) {
 		return reOf(a[0]).MatchString(fr.i.ps.concretizeStr(a[1]))
 	}
 	in["(*regexp.Regexp).FindAllStringSubmatch"] = func(fr *frame, a []value) value {
+		if ss, isSym := a[1].(sstr); isSym {
+			ascii := true
+			for _, b := range ss.b {
+				if !b.IsConst() && !fr.i.ps.decide(smt.BvCmp(smt.OpBvUlt, b, smt.BV(0x80, 8))) {
+					ascii = false
+				}
+			}
+			if ascii {
+				if cond, ok := symRegexMatch(reOf(a[0]), ss.b); ok && !fr.i.ps.decide(cond) {
+					return []value(nil)
+				}
+			}
+		}
 		res := reOf(a[0]).FindAllStringSubmatch(fr.i.ps.concretizeStr(a[1]), int(asInt64(a[2])))
 		if res == nil {
 			return []value(nil)
